@@ -152,11 +152,36 @@ def describe(obj, depth=0) -> dict:
 # --------------------------------------------------------------------------------------
 # building configured components
 # --------------------------------------------------------------------------------------
+_SIBLING_DEFAULTS: dict = {}
+
+
+def sibling_defaults(classes: dict) -> dict:
+    """For every documented tunable attribute name: the values freshly constructed instances of the registered classes
+    carry (a function of the code only).  A tunable set to the default of *another* class is a non-default value that a
+    serializer comparing against the wrong default silently drops (seeded C08-4)."""
+    key = tuple(sorted(classes))
+    if key not in _SIBLING_DEFAULTS:
+        out: dict = {}
+        f = Factory(random.Random(0), classes, tune=False)
+        for name in sorted(classes):
+            try:
+                obj = f.make(name, 1)
+            except Exception:  # noqa: BLE001
+                continue
+            for a in documented_attrs(classes[name][0]):
+                v = getattr(obj, a, None)
+                if isinstance(v, int | float) and not isinstance(v, bool):
+                    out.setdefault(a, set()).add(v)
+        _SIBLING_DEFAULTS[key] = {a: sorted(v) for a, v in out.items()}
+    return _SIBLING_DEFAULTS[key]
+
+
 class Factory:
-    def __init__(self, rnd: random.Random, classes: dict):
+    def __init__(self, rnd: random.Random, classes: dict, tune=True):
         self.rnd = rnd
         self.classes = classes
         self.skipped = []
+        self.tune = tune
 
     def by_role(self, role, pred=lambda n: True):
         return sorted(n for n, (c, r) in self.classes.items() if r == role and pred(n))
@@ -238,15 +263,21 @@ class Factory:
                 continue  # unknown optional parameter: left at its default (reported in evidence)
             kwargs[p.name] = v
         obj = cls(**kwargs)
+        if not self.tune:
+            return obj
         # documented tunables away from their defaults
         docs = documented_attrs(cls)
+        siblings = sibling_defaults(self.classes)
         params = {p.name for p in ctor_params(cls)}
         for a, desc in sorted(docs.items()):
             if a in params or a in SKIP_ATTRS or "eset" in desc or not hasattr(obj, a):
                 continue
             cur = getattr(obj, a)
+            other = [v for v in siblings.get(a, []) if v != cur]
             try:
-                if a == "max_attempts":
+                if other and isinstance(cur, int | float) and not isinstance(cur, bool) and self.rnd.random() < 0.4:
+                    setattr(obj, a, self.rnd.choice(other))
+                elif a == "max_attempts":
                     setattr(obj, a, self.rnd.randint(2, 50))
                 elif a == "default_label":
                     setattr(obj, a, self.rnd.choice([0, 3, -1, 7]))
